@@ -10,7 +10,15 @@
 #include "verif.h"
 
 // ---- clocks: the harness owns the time. Values are nanoseconds (steady) and nanoseconds since epoch (system).
-namespace verif_env { inline long long g_steady_ns = 0; inline long long g_system_ns = 0; }
+namespace verif_env {
+inline long long g_steady_ns = 0; inline long long g_system_ns = 0;
+// Time base for history harnesses. Event times are multiples of 1/8 s: deadlines are event times plus whole seconds, so only the
+// ORDER of the fractional parts of the (at most 8) event times matters, and any real-valued schedule is order-isomorphic to one on
+// the 1/8 s grid. Advances are 0..127 eighths (< 16 s) - narrow operands keep the seconds->nanoseconds products cheap to bit-blast.
+constexpr long long kEighth = 125000000LL;
+inline void start_clock() { g_steady_ns = 5000LL * 1000000000LL + static_cast<long long>(nondet_u8("t0_8ths") & 7) * kEighth; }
+inline void advance_clock() { g_steady_ns += static_cast<long long>(nondet_u8("advance_8ths") & 127) * kEighth; }
+}
 std::chrono::steady_clock::time_point std::chrono::steady_clock::now() noexcept {
     return time_point(duration(verif_env::g_steady_ns));
 }
